@@ -41,6 +41,45 @@ RoundTrips ==
        <<"km s^-1", 3, 2>>, <<"cm^-3", 1, 2>>, <<"erg", 1, 51>>, <<"eV", 136, -1>>, <<"angstrom", 912, 0>>, <<"K", 8, 3>>,
        <<"cm^3 s^-1", 4, -13>>, <<"Msol yr^-1", 1, -6>>, <<"au", 1, 0>>, <<"h", 24, 0>>, <<"bar", 1, 0>>, <<"degrees", 45, 0>> >>
 
+\* "all supported quantities": <<quantity, its SI unit spelled in base units, another unit of the quantity, mantissa, exponent>>.
+\* Three laws per row, through the templated interface the parameter file uses (to_SI< q > / to_unit< q >):
+\*   the coherent product of base units IS the SI unit of the quantity (to_SI< q >(1, base) = 1),
+\*   to_unit< q >(to_SI< q >(v, u), u) = v for v = mantissa x 10^exponent,
+\*   to_SI< q >(v, u) = convert(v, u, name of the SI unit of q)  (the table agrees with itself).
+Quantities ==
+    << <<"ACCELERATION", "m s^-2", "km s^-1 Myr^-1", 3, 1>>, <<"ANGLE", "radians", "degrees", 9, 1>>,
+       <<"DENSITY", "kg m^-3", "g cm^-3", 1, -22>>, <<"ENERGY", "kg m^2 s^-2", "erg", 1, 51>>,
+       <<"ENERGY_CHANGE_RATE", "kg m^-1 s^-3", "erg cm^-3 s^-1", 2, -24>>, <<"ENERGY_RATE", "kg m^2 s^-3", "erg s^-1", 4, 33>>,
+       <<"FLUX", "m^-2 s^-1", "cm^-2 s^-1", 1, 9>>, <<"FORCING_POWER", "m^2 s^-3", "km^2 s^-2 Myr^-1", 5, 0>>,
+       <<"FREQUENCY", "s^-1", "Myr^-1", 7, 0>>, <<"FREQUENCY_PER_MASS", "s^-1 kg^-1", "Hz g^-1", 2, 3>>,
+       <<"INVERSE_LENGTH", "m^-1", "pc^-1", 3, 0>>, <<"INVERSE_SURFACE_AREA", "m^-2", "cm^-2", 1, 17>>,
+       <<"LENGTH", "m", "kpc", 25, -1>>, <<"MASS", "kg", "Msol", 2, 5>>, <<"MASS_RATE", "kg s^-1", "Msol yr^-1", 1, -6>>,
+       <<"MOMENTUM", "kg m s^-1", "g cm s^-1", 6, 2>>, <<"NUMBER_DENSITY", "m^-3", "cm^-3", 1, 2>>,
+       <<"OPACITY", "m^-1", "cm^-1", 3, -5>>, <<"PRESSURE", "kg m^-1 s^-2", "bar", 2, 0>>,
+       <<"REACTION_RATE", "m^3 s^-1", "cm^3 s^-1", 4, -13>>, <<"SURFACE_AREA", "m^2", "angstrom^2", 63, -1>>,
+       <<"SURFACE_DENSITY", "kg m^-2", "Msol pc^-2", 1, 1>>, <<"TEMPERATURE", "K", "K", 8, 3>>,
+       <<"TIME", "s", "Gyr", 137, -1>>, <<"VELOCITY", "m s^-1", "kpc Gyr^-1", 2, 2>>, <<"VOLUME", "m^3", "pc^3", 1, 0>> >>
+
+\* photon energy / frequency / wavelength are convertible into each other: <<a, b, mantissa, exponent>> - converting
+\* mantissa x 10^exponent a to b and back returns it
+Cross ==
+    << <<"eV", "Hz", 136, -1>>, <<"J", "Hz", 2, -18>>, <<"erg", "Hz", 2, -11>>, <<"angstrom", "Hz", 912, 0>>,
+       <<"m", "Hz", 21, -2>>, <<"cm", "s^-1", 21, 0>>, <<"Hz", "eV", 329, 13>>, <<"Hz", "angstrom", 329, 13>>,
+       <<"s^-1", "km", 3, 5>>,
+       \* ... also when the frequency is not given in Hz (both directions then scale the value)
+       <<"eV", "Myr^-1", 136, -1>>, <<"angstrom", "yr^-1", 912, 0>>, <<"Gyr^-1", "erg", 5, 20>>, <<"h^-1", "kpc", 7, 0>> >>
+\* <<a1, b1, a2, b2, m, e>>: convert(1, a1, b1) = m x 10^e x convert(1, a2, b2) - decimal prefixes commute with the photon
+\* conversions (a wavelength 100 times longer is a frequency 100 times lower)
+Ratios ==
+    << <<"J", "Hz", "erg", "Hz", 1, 7>>, <<"m", "Hz", "cm", "Hz", 1, -2>>, <<"angstrom", "Hz", "m", "Hz", 1, 10>>,
+       <<"Hz", "angstrom", "Hz", "m", 1, 10>>, <<"Hz", "erg", "Hz", "J", 1, 7>>, <<"J", "Hz", "J", "s^-1", 1, 0>>,
+       <<"km", "Hz", "m", "Hz", 1, -3>>, <<"J", "Myr^-1", "J", "yr^-1", 1, 6>>,
+       <<"Hz", "eV", "h^-1", "eV", 36, 2>>, <<"Myr^-1", "J", "Gyr^-1", "J", 1, 3>>, <<"yr^-1", "cm", "Myr^-1", "cm", 1, -6>> >>
+\* <<a, b, k, p>>: convert(k, a, b) = k^p x convert(1, a, b), p = 1 (energy) or -1 (wavelength)
+Scalings ==
+    << <<"eV", "Hz", 3, 1>>, <<"Hz", "eV", 3, 1>>, <<"angstrom", "Hz", 4, -1>>, <<"Hz", "angstrom", 4, -1>>,
+       <<"J", "Hz", 1000, 1>>, <<"pc", "Hz", 8, -1>> >>
+
 \* relative deviation (in units of 10^-12) that floating point conversion factors may show
 Bound == 20
 
@@ -49,9 +88,13 @@ Bad == {i \in 1 .. Len(Results) : Results[i].dev > Bound}
 ASSUME PrintT(<<"RELATIONS", ToJson(Relations)>>)
 ASSUME PrintT(<<"PRODUCTS", ToJson(Products)>>)
 ASSUME PrintT(<<"ROUNDTRIPS", ToJson(RoundTrips)>>)
+ASSUME PrintT(<<"QUANTITIES", ToJson(Quantities)>>)
+ASSUME PrintT(<<"CROSS", ToJson(Cross)>>)
+ASSUME PrintT(<<"RATIOS", ToJson(Ratios)>>)
+ASSUME PrintT(<<"SCALINGS", ToJson(Scalings)>>)
 ASSUME PrintT(<<"BADUNITS", ToJson([i \in 1 .. Len(Results) |-> IF i \in Bad THEN 1 ELSE 0])>>)
 \* every relation of the table was answered
-ASSUME Results = <<>> \/ Len(Results) = Len(Relations) + Len(Products) + Len(RoundTrips)
+ASSUME Results = <<>> \/ Len(Results) = Len(Relations) + Len(Products) + Len(RoundTrips) + 3 * Len(Quantities) + Len(Cross) + Len(Ratios) + Len(Scalings)
 VARIABLE x
 Init == x = 0
 Next == UNCHANGED x
